@@ -115,7 +115,18 @@ pub fn history<S: USet>(e: &mut Eng<S>, name: &str, steps: usize, regime: u64, w
                 crate::scenarios::serde_roundtrip(e, i, k);
                 #[cfg(all(feature = "serde", not(feature = "compactserde")))]
                 if e.rng.chance(1, 2) {
-                    let v = gen_seq(e, i, regime);
+                    let mut v = gen_seq(e, i, regime);
+                    // also sequences a deserialiser might special-case: already sorted (duplicates kept), and
+                    // dense non-decreasing runs with repeats (several lengths around the inline / dense limits)
+                    match e.rng.below(4) {
+                        0 => v.sort(),
+                        1 => {
+                            let n = [3u64, 7, 8, 9, 20, 70, 300][e.rng.below(7) as usize];
+                            let base = S::norm([0u64, 0, 5, 1000][e.rng.below(4) as usize]);
+                            v = (0..n).flat_map(|k| std::iter::repeat(S::norm(base + k)).take(1 + (k % 3 == 2) as usize)).collect();
+                        }
+                        _ => {}
+                    }
                     let k2 = 4 + e.rng.below(3) as usize;
                     crate::scenarios::serde_sequence(e, k2, &v);
                 }
